@@ -102,6 +102,24 @@ class Rec(H.RequestAdapter):
         return rv
 
 
+class Assign(H.RequestAdapter):
+    """an adapter that changes the request by ASSIGNING new values to the request arguments (the caller's own
+    objects must stay untouched): an api key parameter, a body envelope, a method override"""
+
+    def __init__(self, what):
+        self.what = what
+
+    def process_req_args(self, req_args):
+        if self.what == 'apikey':
+            p = req_args.params
+            req_args.params = (list(p.items()) if isinstance(p, dict) else list(p or [])) + [('api_key', 'K')]
+        elif self.what == 'envelope':
+            if not isinstance(req_args.data, bytes):
+                req_args.data = {'env': req_args.data}
+        else:
+            req_args.method = 'OPTIONS'
+
+
 RESPONSE = {"r": 1, "zero": 0, "empty": [], "none": None, "txt": ""}
 
 
@@ -186,6 +204,10 @@ def build(rng, log):
                     p = rng.choice(["/x", "/y/", "z", "/v1"])
                     ads.append(H.RequestAdapterAddPathPrefix(p))
                     own.append(('prefix', p))
+                elif rng.random() < 0.15:
+                    what = rng.choice(['apikey', 'envelope', 'method'])
+                    ads.append(Assign(what))
+                    own.append(('assign', what))
                 elif rng.random() < 0.25:
                     key = rng.choice(["zero", "empty", "none", "txt", "r"])
                     ads.append(Unwrap(key, log))
@@ -212,6 +234,14 @@ def expected(address, layers, path, method, params, data, headers):
             path = p + sp
         elif a[0] == 'auth':
             hdr['Authorization'] = (a[1], a[2])
+        elif a[0] == 'assign':
+            if a[1] == 'apikey':
+                params = (list(params.items()) if isinstance(params, dict) else list(params or [])) + [('api_key', 'K')]
+            elif a[1] == 'envelope':
+                if not isinstance(data, bytes):
+                    data = {'env': data}
+            else:
+                method = 'OPTIONS' 
     if params:
         path += "?" + urlencode(params)
     if isinstance(address, tuple):
@@ -360,8 +390,9 @@ def _run_history(ctx, rng, case):
                 check_req(op.reqs[-1], (exp[0], exp[1], exp[2], exp[3], []), tag + " (http error)")
                 n_before = len(op.reqs)
                 del log_save
+            raw = rng.random() < 0.12
             try:
-                ret = getattr(c, verb)(path, params=params, data=data, headers=headers)
+                ret = getattr(c, verb)(path, params=params, data=data, headers=headers, **({'raw_response': True} if raw else {}))
             except Exception as err:
                 if own_auth and layer_auth and len(op.reqs) == n_before:
                     # the caller's own Authorization header meets an authenticating layer: refusing the request
@@ -372,7 +403,13 @@ def _run_history(ctx, rng, case):
             if len(op.reqs) != n_before + 1:
                 fail("not-exactly-one-request-sent", {"step": tag, "sent": len(op.reqs) - n_before})
             want_ret = expected_return(lay)
-            if ret != want_ret or type(ret) is not type(want_ret):
+            if raw:
+                # (the response object itself goes through the processors - which are still all called)
+                ctx.count("raw_responses_requested")
+                if not isinstance(ret, Resp):
+                    fail("returned-value-differs-from-processed-response", {"step": tag, "got": repr(ret)[:80],
+                                                                            "expected": "the response object"})
+            elif ret != want_ret or type(ret) is not type(want_ret):
                 fail("returned-value-differs-from-processed-response", {"step": tag, "got": repr(ret)[:80],
                                                                         "expected": repr(want_ret)[:80]})
             ctx.count("caller_objects_checked")
